@@ -69,6 +69,10 @@ theorem mech_enu2trs : Generated.CacheMech.enu2trs.good := by decide
 theorem mech_trs2enu : Generated.CacheMech.trs2enu.good := by decide
 theorem mech_toScale : Generated.CacheMech.toScale.good := by decide
 
+/-- the arrays handed out by the cached formats / properties of time objects (shared by all equal time objects) are made
+read-only in place, member by member for tuple results (`gps_ws`) -/
+theorem mech_time_results_frozen : Generated.CacheMech.timeResultsFrozenInPlace = true := by decide
+
 /-- the process-wide caches under midgard/math and midgard/data are exactly the known ones: a new
 `lru_cache` is a new obligation -/
 theorem caches_known : Generated.CacheMech.cachedCallables =
@@ -370,3 +374,4 @@ end Midgard.Props.C08.PosVel
 #print axioms Midgard.Props.C08.Obj.chain_view_keeps_invariant
 #print axioms Midgard.Props.C08.PosVel.posvel_caching_invisible_from
 #print axioms Midgard.Props.C08.PosVel.posvel_caching_invisible
+#print axioms Midgard.Props.C08.mech_time_results_frozen
